@@ -167,13 +167,16 @@ def oracle_sequence(sid, lines, outs):
             newrm = [r[0] for r in w["rm"] if r[0] not in [x[0] for x in b["rm"]]]
             if newrm:
                 stats["marks"] += 1
-                registered = [n for n in b["nodes"] if n in dn]
+                # reachable = what the data node actually answers (the stub), for the check path also registered:
+                # a registered node that hangs or answers not-synced is NOT alive
                 answering = [n for n in b["nodes"] if a(n)[1]]
-                if kind in ("C", "CS", "M") and not len(registered) > replica // 2:
-                    fail(cid, "removal-marked-without-alive-majority: registered replicas %s of %s, replication %d" % (registered, b["nodes"], replica),
-                         dict(kind=kind, before=b, written=w, data_nodes=dn))
-                if kind in ("B", "P") and not len(set(registered) | set(answering)) > replica // 2:
-                    fail(cid, "removal-marked-with-majority-unreachable: reachable replicas %s of %s, replication %d" % (sorted(set(registered) | set(answering)), b["nodes"], replica),
+                reachable = [n for n in answering if n in dn]
+                if kind in ("C", "CS", "M") and not len(reachable) > replica // 2:
+                    fail(cid, "removal-marked-without-alive-majority: reachable (registered and answering synced) replicas %s of %s, replication %d" % (reachable, b["nodes"], replica),
+                         dict(kind=kind, before=b, written=w, data_nodes=dn,
+                              answers={str(n): list(a(n)) for n in b["nodes"]}))
+                if kind in ("B", "P") and not len(answering) > replica // 2:
+                    fail(cid, "removal-marked-with-majority-unreachable: replicas answering synced %s of %s, replication %d" % (answering, b["nodes"], replica),
                          dict(kind=kind, before=b, written=w, data_nodes=dn))
             gone = [n for n in b["nodes"] if n not in w["nodes"]]
             if len(added) + len(gone) > 1:
